@@ -47,12 +47,14 @@ use vstd::std_specs::ops::{MulSpec, DivSpec};
 pub mod float_axioms {
     use vstd::prelude::*;
     use vstd::std_specs::ops::{MulSpec, DivSpec};
-    // float multiplication / division never panic (their results stay opaque)
-    // ... and are deterministic functions of their operands
-    pub broadcast axiom fn f64_mul_req(a: f64, b: f64) ensures #[trigger] a.mul_req(b), <f64 as MulSpec<f64>>::obeys_mul_spec();
-    pub broadcast axiom fn f64_div_req(a: f64, b: f64) ensures #[trigger] a.div_req(b), <f64 as DivSpec<f64>>::obeys_div_spec();
+    // float multiplication / division never panic ...
+    pub broadcast axiom fn f64_mul_req(a: f64, b: f64) ensures #[trigger] a.mul_req(b);
+    pub broadcast axiom fn f64_div_req(a: f64, b: f64) ensures #[trigger] a.div_req(b);
+    // ... and are deterministic functions of their operands (results stay opaque)
+    pub broadcast axiom fn f64_mul_obeys(a: f64, b: f64) ensures <f64 as MulSpec<f64>>::obeys_mul_spec() || #[trigger] a.mul_spec(b) != a.mul_spec(b);
+    pub broadcast axiom fn f64_div_obeys(a: f64, b: f64) ensures <f64 as DivSpec<f64>>::obeys_div_spec() || #[trigger] a.div_spec(b) != a.div_spec(b);
 }
-broadcast use {float_axioms::f64_mul_req, float_axioms::f64_div_req};
+broadcast use {float_axioms::f64_mul_req, float_axioms::f64_div_req, float_axioms::f64_mul_obeys, float_axioms::f64_div_obeys};
 
 // RF: `x as f64` (u64 -> f64) is an opaque function of x (this Verus treats the cast as an arbitrary value)
 pub uninterp spec fn u64_as_f64(x: u64) -> f64;
